@@ -29,6 +29,14 @@ Mon(e) ==
             THEN (IF e.reply.t = "error" THEN {} ELSE {"C20.observer_not_refused"}) \cup
                  (IF e.reached_backend THEN {"C20.observer_reached_backend"} ELSE {})
             ELSE IF e.strategy = "disabled" /\ ~e.reached_backend THEN {"C20.refused_while_disabled"} ELSE {}
+      [] e.kind = "cross" ->
+            \* "through any proxy of the cluster": written through one proxy (which may have to redirect or forward),
+            \* read through the other one and through the same one
+            (IF e.wreply.t = "error" THEN {"C20.cross_write_refused"} ELSE {}) \cup
+            (IF e.get_other.t = "bulk" /\ e.get_other.v = e.v THEN {} ELSE {"C20.cross_get_other_proxy_differs"}) \cup
+            (IF e.get_same.t = "bulk" /\ e.get_same.v = e.v THEN {} ELSE {"C20.cross_get_same_proxy_differs"}) \cup
+            (IF e.mget_other.t = "arr" /\ Len(e.mget_other.a) = 1 /\ e.mget_other.a[1].t = "bulk" /\ e.mget_other.a[1].v = e.v
+             THEN {} ELSE {"C20.cross_mget_differs"})
       [] OTHER -> {}
 
 Init == l = 1 /\ viol = {}
